@@ -65,8 +65,23 @@ impl Gap {
 }
 
 #[derive(Clone, Copy, PartialEq, Eq, Debug)]
-enum Mode { New, From }
-impl Mode { fn name(self) -> &'static str { match self { Mode::New => "new", Mode::From => "from" } } }
+enum Mode { New, From,
+    /// `Response::with_stream` over a Stream of a *user type* implementing `sse::Data` (its `encode` returns the text as it is)
+    UserData,
+    /// `Response::set_stream_raw`: a boxed Stream of `String`, no `sse::Data` in between
+    Raw }
+impl Mode { fn name(self) -> &'static str { match self { Mode::New => "new", Mode::From => "from", Mode::UserData => "user-data", Mode::Raw => "raw" } } }
+
+/// a user's message type
+struct Msg(String);
+impl ohkami::sse::Data for Msg { fn encode(self) -> String { self.0 } }
+impl ohkami::openapi::Schema for Msg { fn schema() -> impl Into<ohkami::openapi::schema::SchemaRef> { ohkami::openapi::string() } }
+/// adapter: the scripted stream as a Stream of the user type
+struct AsMsg(ScriptedStream);
+impl ohkami::util::Stream for AsMsg {
+    type Item = Msg;
+    fn poll_next(mut self: Pin<&mut Self>, cx: &mut Context<'_>) -> Poll<Option<Msg>> { Pin::new(&mut self.0).poll_next(cx).map(|o| o.map(Msg)) }
+}
 
 const WRITERS: [(WriterMode, &str); 3] = [(WriterMode::All, "all"), (WriterMode::AtMost(7), "atmost7"), (WriterMode::PendingOnce, "pending-once")];
 
@@ -83,7 +98,7 @@ impl Case {
         else { json!({"mode": self.mode.name(), "messages": self.messages, "gaps": self.gaps_string(), "writer": WRITERS[self.writer].1}) }
     }
     fn from_json(v: &Value) -> Result<Case, String> {
-        let mode = match v["mode"].as_str() { Some("new") => Mode::New, Some("from") => Mode::From, o => return Err(format!("mode {o:?}")) };
+        let mode = match v["mode"].as_str() { Some("new") => Mode::New, Some("from") => Mode::From, Some("user-data") => Mode::UserData, Some("raw") => Mode::Raw, o => return Err(format!("mode {o:?}")) };
         let messages: Vec<String> = v["messages"].as_array().ok_or("messages")?.iter()
             .map(|m| m.as_str().map(str::to_string).ok_or("message is not a string")).collect::<Result<_, _>>()?;
         let gaps: Vec<Gap> = v["gaps"].as_str().ok_or("gaps")?.chars().map(|c| Gap::from_letter(c).ok_or("gap letter")).collect::<Result<_, _>>()?;
@@ -94,7 +109,7 @@ impl Case {
             WRITERS.iter().position(|(_, n)| *n == w).ok_or("writer name")?
         };
         if tcp && gaps.contains(&Gap::Harness) { return Err("H gaps cannot run over TCP".into()) }
-        if tcp && mode == Mode::From && gaps.contains(&Gap::Sleep) { return Err("Z gaps are scripted for DataStream::new only".into()) }
+        if tcp && mode != Mode::New && gaps.contains(&Gap::Sleep) { return Err("Z gaps are scripted for DataStream::new only".into()) }
         if !tcp && gaps.contains(&Gap::Sleep) { return Err("Z gaps need the TCP transport".into()) }
         Ok(Case { mode, messages, gaps, writer, tcp })
     }
@@ -204,9 +219,15 @@ impl ohkami_lib::Stream for ScriptedStream {
     }
 }
 
-async fn handler() -> DataStream {
+async fn handler() -> ohkami::Response {
+    use ohkami::IntoResponse;
     let Script { mode, steps, slot } = SCRIPT.with(|s| s.borrow_mut().take()).expect("C17 harness: no script installed");
     match mode {
+        Mode::UserData => return ohkami::Response::OK().with_stream(AsMsg(ScriptedStream { steps: steps.into(), slot, self_yielded: false, registered: false })),
+        Mode::Raw => { let mut res = ohkami::Response::OK(); res.set_stream_raw(Box::pin(ScriptedStream { steps: steps.into(), slot, self_yielded: false, registered: false })); return res }
+        _ => {}
+    }
+    let stream: DataStream = match mode {
         Mode::New => DataStream::new(move |mut s| async move {
             for step in steps {
                 match step {
@@ -219,7 +240,9 @@ async fn handler() -> DataStream {
             lock(&slot).finished = true;
         }),
         Mode::From => DataStream::from(ScriptedStream { steps: steps.into(), slot, self_yielded: false, registered: false }),
-    }
+        Mode::UserData | Mode::Raw => unreachable!(),
+    };
+    stream.into_response()
 }
 
 /* ------------------------------------------------------------------------------------------------
@@ -356,6 +379,8 @@ fn schedule_feature(case: &Case) -> &'static str {
     if case.gaps.contains(&Gap::Sleep) { return "slower-than-session-timeout" }
     match case.mode {
         Mode::From => if pending_anywhere { "from-stream-pending" } else { "from-stream" },
+        Mode::UserData => if pending_anywhere { "user-data-stream-pending" } else { "user-data-stream" },
+        Mode::Raw => if pending_anywhere { "raw-stream-pending" } else { "raw-stream" },
         Mode::New => {
             let burst = k >= 2 && case.gaps[1..k].iter().any(|g| *g == Gap::None);
             if burst { "burst" }
@@ -599,7 +624,7 @@ fn tcp_cases() -> Vec<Case> {
     seqs.push(vec!["a\r\nb", "\n", ":c", "data: x"]);
     let mut out = Vec::new();
     for seq in &seqs {
-        for mode in [Mode::New, Mode::From] {
+        for mode in [Mode::New, Mode::From, Mode::UserData, Mode::Raw] {
             for g in [Gap::None, Gap::SelfWake, Gap::Two] {
                 out.push(Case { mode, messages: seq.iter().map(|m| m.to_string()).collect(), gaps: vec![g; seq.len() + 1], writer: 0, tcp: true });
             }
@@ -699,8 +724,11 @@ pub fn run(ctx: &mut Ctx) {
             for _ in 0..k { toks.push(x % n); x /= n; }
             toks.reverse();
             let messages: Vec<String> = toks.iter().map(|t| alphabet[*t].to_string()).collect();
-            for mode in [Mode::New, Mode::From] {
-                for gaps in &vectors[k] {
+            // (the two entry points that do not pass through the built-in `sse::Data` impls take the gap vectors without Pending
+            //  only plus the first with Pending: their drain path is `from`'s, what differs is who prepares the text)
+            for mode in [Mode::New, Mode::From, Mode::UserData, Mode::Raw] {
+                for (gi, gaps) in vectors[k].iter().enumerate() {
+                    if matches!(mode, Mode::UserData | Mode::Raw) && gi > 1 { continue }
                     for writer in 0..WRITERS.len() {
                         let case = Case { mode, messages: messages.clone(), gaps: gaps.clone(), writer, tcp: false };
                         check_case(ctx, &mut stats, &router, &case);
@@ -716,7 +744,7 @@ pub fn run(ctx: &mut Ctx) {
     ctx.extra.insert("distinct_by_construction".into(), json!(true));
     ctx.extra.insert("bounds".into(), json!({
         "messages": alphabet, "max_sequence_length": max_len, "gap_alphabet": "N no yield | S self-waking yield | H yield woken later by the harness | D two self-waking yields",
-        "gaps_per_case": "sequence length + 1", "constructors": ["DataStream::new", "DataStream::from"], "writers": WRITERS.iter().map(|w| w.1).collect::<Vec<_>>(),
+        "gaps_per_case": "sequence length + 1", "constructors": ["DataStream::new", "DataStream::from", "Response::with_stream over a user type implementing sse::Data", "Response::set_stream_raw"], "writers": WRITERS.iter().map(|w| w.1).collect::<Vec<_>>(),
         "product": "full (no thinning)",
         "part_B_over_tcp": {"cases": tcp_cases().len(), "what": "every single message, the empty stream and three longer sequences x both constructors x {N,S,D on every gap} through the real Session::manage over loopback TCP, bytes compared with the in-memory run; plus one case whose producer sleeps longer than the keep-alive limit",
                             "keepalive_timeout_s": KEEPALIVE_S, "sleep_ms": SLEEP_MS}}));
